@@ -9,7 +9,7 @@ from . import pool
 JPEG = b'\xff\xd8\xff\xe0\x00\x10JFIF\x00\x01\x01\x00\x00\x01\x00\x01\x00\x00' + bytes(range(64)) + b'\xff\xd9'
 T0 = datetime(2021, 5, 6, 7, 8, 9, tzinfo=timezone.utc)
 
-KINDS = ['doc-bytes', 'doc-str', 'doc-empty', 'literal-b', 'literal-u', 'literal-t', 'cleartext', 'cleartext-blank', 'none', 'uid-self', 'uid-other', 'ua-self', 'ua-other',
+KINDS = ['doc-bytes', 'doc-str', 'doc-empty', 'literal-b', 'literal-u', 'literal-t', 'cleartext', 'cleartext-blank', 'cleartext-ws', 'none', 'uid-self', 'uid-other', 'ua-self', 'ua-other',
          'key-direct-self', 'key-direct-other', 'revoke-key', 'revoke-subkey', 'revoke-uid', 'bind', 'bind-ecdh', 'revoker', 'attest']
 
 HASHES = {'MD5': 1, 'SHA1': 2, 'SHA224': 11, 'SHA256': 8, 'SHA384': 9, 'SHA512': 10}
@@ -93,9 +93,12 @@ def pgpy_triple(signer, kind, hashname=None, opts=None, level=None):
             m |= s
             lit = [p for p in wire.split(bytes(m)) if p.tag == 11][0]
             t.sig, t.subject, t.refsubj, t.carrier = s, m, {'doc': grammar.literal_fields(lit.body)['data']}, 'message'
-        elif kind in ('cleartext', 'cleartext-blank'):
-            # the second text begins with empty lines and has one inside (trailing blanks and final line endings are C11's subject)
+        elif kind in ('cleartext', 'cleartext-blank', 'cleartext-ws'):
+            # the second text begins with empty lines and has one inside (trailing blanks and final line endings are C11's subject); the third has
+            # lines that end in white space OTHER than blank and tab, which is part of what is signed (RFC 4880 7.1 discounts blank and tab only)
             text = 'cleartext line\n- dashed\nlast line' if kind == 'cleartext' else '\n\nafter two empty lines\n- dashed\n\nlast line'
+            if kind == 'cleartext-ws':
+                text = 'no-break space at the end\u00a0\nideographic space\u3000\n- em space after a dash\u2003\nform feed\x0c\nlast line ends in a thin space\u2009'
             m = pgpy.PGPMessage.new(text, cleartext=True)
             s = k.sign(m, **opts)
             m |= s
